@@ -27,22 +27,23 @@ def run(tier, seed, replay):
     cov["documents_exported"] = len(rows)
     s = json.loads(rows[len(rows) // 2])
     cov["samples"].append(dict(schema=s["schema"], missing=s["missing"], doc=s["av"]))
-    binp = lib.go_module(scr, "codec", "v2", extra_src=lambda d: lib.vt_bindings(scr, d))
-    moddir = os.path.dirname(binp)
     totals = {}
-    code, out, err, wall = lib.run_bin(binp, ["-mode", "c06", "-in", rf, "-reserved", resf, "-seed", str(seed)], timeout=3000, cwd=moddir)
-    if code != 0:
-        raise lib.Broken("codec harness (c06) failed: %s" % err[-3000:])
-    for line in out.splitlines():
-        o = json.loads(line)
-        if o["kind"] == "violation":
-            verdict.add(o["key"], o["what"], o["case"])
-        elif o["kind"] == "stats":
-            totals = o["stats"]
-            for k, v in o["violation_counts"].items():
-                for vv in verdict.violations:
-                    if vv["key"] == k:
-                        vv["count"] = v
+    for gen, binp, moddir, rekey in codec_common.codec_bins(scr, PROP):     # bindings from both generators
+        code, out, err, wall = lib.run_bin(binp, ["-mode", "c06", "-in", rf, "-reserved", resf, "-seed", str(seed)], timeout=3000, cwd=moddir)
+        if code != 0:
+            raise lib.Broken("codec harness (c06, %s) failed: %s" % (gen, err[-3000:]))
+        for line in out.splitlines():
+            o = json.loads(line)
+            if o["kind"] == "violation":
+                verdict.add(rekey(o["key"]), ("" if gen == "v2" else "[root generation] ") + o["what"], dict(o["case"], gen=gen))
+            elif o["kind"] == "stats":
+                for k, v in o["stats"].items():
+                    totals[k] = totals.get(k, 0) + v
+                for k, v in o["violation_counts"].items():
+                    for vv in verdict.violations:
+                        if vv["key"] == rekey(k):
+                            vv["count"] = v
+    cov["generations"] = ["v2", "root"]
     cov.update(totals)
     cov["traces_validated_against_impl"] = 0
     cov["evaluations"] = totals.get("decodings", 0)
